@@ -56,11 +56,12 @@ def _const_gep_index(f, o):
     return None
 
 
-def locksets(mod, f):
-    """must-held lockset before each instruction: dict inst id -> frozenset; plus events list"""
+def locksets(mod, f, entry=frozenset()):
+    """must-held lockset before each instruction: dict inst id -> frozenset; plus events list.
+    `entry` = locks held at every call site of f (see entry_locks)"""
     TOP = None
     IN = {b.id: TOP for b in f.blocks}
-    IN[f.blocks[0].id] = frozenset()
+    IN[f.blocks[0].id] = frozenset(entry)
     OUT = {}
     held_at = {}
     events = []
@@ -98,6 +99,58 @@ def locksets(mod, f):
             if ev:
                 events.append((i, ev))
     return held_at, events
+
+
+_entry_cache = {}
+
+
+def entry_locks(mod):
+    """locks that are held at *every* call site of a function (interprocedural must-held set at entry).  Functions without a caller, and functions whose
+    address is taken (thread start routines), start with the empty set.  Greatest fixpoint over the direct call graph."""
+    if id(mod) in _entry_cache:
+        return _entry_cache[id(mod)]
+    taken = set()
+    for f in mod.funcs.values():
+        for i in f.insts():
+            for o in i.ops:
+                if isinstance(o, (list, tuple)) and o and o[0] == "fn":
+                    taken.add(o[1])
+    TOP = None
+    entry = {}
+    for f in mod.funcs.values():
+        cs = [c for c in mod.callers.get(f.name, []) if c.fn.name != f.name]
+        entry[f.name] = TOP if (cs and f.name not in taken) else frozenset()
+    # only functions that sit below a lock region matter; iterate a few rounds
+    for _ in range(40):
+        changed = False
+        cand = {}
+        for f in mod.funcs.values():
+            e = entry[f.name]
+            if e is TOP:
+                continue
+            calls = [c for c in f.insts() if c.op == "call" and c.callee in mod.funcs and c.callee != f.name]
+            if not calls:
+                continue
+            has_lock = bool(e) or any(lock_id(mod, f, c) for c in f.insts() if c.op == "call")
+            held_at = locksets(mod, f, e)[0] if has_lock else None
+            for c in calls:
+                h = (held_at.get(c.i) if held_at is not None else frozenset()) or frozenset()
+                cand[c.callee] = h if c.callee not in cand else (cand[c.callee] & h)
+        for name, h in cand.items():
+            if name in taken:
+                continue
+            # all callers must have been evaluated: callers still at TOP contribute nothing yet (optimistic), re-checked next round
+            if entry[name] is TOP or entry[name] != h:
+                if entry[name] is TOP or h != entry[name]:
+                    entry[name] = h
+                    changed = True
+        if not changed:
+            break
+    for k, v in entry.items():
+        if v is TOP:
+            entry[k] = frozenset()
+    _entry_cache[id(mod)] = entry
+    return entry
 
 
 def worker_context(mod):
@@ -198,7 +251,7 @@ def rule_L2_guarded_by(mod, rep, config="pthread"):
                 if not hit:
                     continue
                 if held_at is None:
-                    held_at, _ = locksets(mod, f)
+                    held_at, _ = locksets(mod, f, entry_locks(mod).get(f.name, frozenset()))
                     rep.scope([f.name])
                 n += 1
                 key = "%s#%s#%s" % (f.name, cell, i.op)
